@@ -380,3 +380,43 @@ from .loops import invariant
 def _lfda_k_nonneg(v, head):
   """the neighbour index stays a valid non-negative index (every class has at least one member)"""
   return v.k >= 0
+
+
+# ---------------------------------------------------------------------------------------------------- SCML
+def scml_hyper(basis, n_basis, seed='seed'):
+  return {'beta': Real(), 'basis': basis, 'n_basis': n_basis, 'gamma': Real(), 'max_iter': Int(1), 'output_iter': Int(1), 'batch_size': Int(1),
+          'verbose': Const(VBool(False)), 'random_state': Int() if seed == 'seed' else NoneT()}
+
+
+def scml_fit_cases():
+  out = []
+  for bn, bs in (('triplet_diffs', Str('triplet_diffs')), ('array', Arr(2, owner=frozenset({('attr', 'basis')}), dims=['nb', 'bd']))):
+    for nn, ns in (('nbasis-default', NoneT()), ('nbasis', Int(1))):
+      for h in ('fresh', 'refit'):
+        if h == 'refit' and bn == 'array':
+          continue
+        out.append(Case('%s-%s-%s' % (bn, nn, h), {'self': est('SCML', scml_hyper(bs, ns), h), 'triplets': Arr(3, dims=['n', 3, 'd']),
+                                                   'basis': NoneT(), 'n_basis': NoneT()},
+                        pre=lambda a: a.self.output_iter <= a.self.max_iter))
+  return out
+
+
+def scml_shape(a, r):
+  c = comp(a)
+  d = a.triplets.dim(2)
+  return z3.And(c.ndim == 2, c.dim(1) == d, c.dim(0) <= d, c.dim(0) >= 0)
+
+
+scml_clauses = model_clauses(lambda a: None, lambda a: a.triplets.dim(2))
+scml_clauses['components_-shape-(k,n_features)'] = scml_shape
+register(Contract(
+    'scml:_BaseSCML._fit',
+    cases=scml_fit_cases(),
+    ensures=scml_clauses,
+    events={'randomness-seeded': seeded, 'bookkeeping-attributes-assigned-by-every-fit': assigns('components_', 'n_iter_'),
+            # documented low-rank case: fewer rows than features only together with a warning
+            'lowrank-only-with-warning': lambda a, ev, r: z3.Implies(comp(a).dim(0) < comp(a).dim(1), z3.BoolVal(any(e[0] == 'warn' for e in ev)))},
+    raises=dict(FIT_RAISES),
+    modifies={'components_', 'preprocessor_', 'n_features_in_', 'n_iter_'},
+    prop=['C03', 'C15', 'C17']))
+C.unit('C03', 'scml:_BaseSCML._fit')
